@@ -15,6 +15,7 @@ import weakref
 import numpy as np
 
 from .. import gen, ref
+from . import _c02_layouts as lay
 
 ID = "C02"
 LEVEL = "exploration"
@@ -26,8 +27,10 @@ LEVERAGE_MAX = 25.0     # ... decided only when the reference cross-leverage |j_
 EPS = ref.EPS
 
 RULE = (
-    "cases = seeded fits of Trend(0..4), Spline and VectorSpline2D on 3..300 points (uniform, jittered grid, clusters, anisotropic; 1-D and 2-D "
-    "shapes; coordinate scales 1e-2..1e6, offsets 0..1e3 extents; data magnitudes 1e-3..1e6) with weights None or 10^[-3,1] per datum (different "
+    "cases = seeded fits of Trend(0..4), Spline and VectorSpline2D on 3..300 points (uniform, jittered grid, clusters, anisotropic; logical shapes "
+    "1-D or non-square 2-D grids with every argument - each coordinate, each data component, each weight component, the force coordinates - in an "
+    "independently chosen memory layout / container: C, Fortran, transposed view, strided, negative strides, read-only, pandas Series; the reference "
+    "pairs weight k with datum k of the C-order element sequences; coordinate scales 1e-2..1e6, offsets 0..1e3 extents; data magnitudes 1e-3..1e6) with weights None or 10^[-3,1] per datum (different "
     "per vector component), damping None or 10^[-8,2], forces at the data or at a separate set of ceil(n/4)..n points, Poisson ratio in [-1,1], "
     "mindist 0 or small (Spline) / >0 (VectorSpline2D); each fit is followed by predictions at the data and at 20 query points inside the data "
     "region. Relations: undamped fits with weights w and c*w (c in 1e-3..1e3); an outlier with weight 1e-4 / 1e-8 against the fit without the datum "
@@ -47,10 +50,12 @@ ASSUMPTIONS = [
     "the bound 50*eps*|outlier| is decided only when the reference cross-leverage max_q |j_q M^-1 j_k| of the datum is <= 25 (the exact influence is "
     "eps * leverage * residual, so the bound then has a factor 2 of slack); higher-leverage data are skipped and counted",
     "weights are strictly positive and finite, data finite (the statement's quantifier); other fits are skipped",
+    "coordinates, data and weights are flattened in C (row-major) order of the logical arrays whatever their memory layout (what check_fit_input / "
+    "n_1d_arrays document via np.ravel); the reference takes np.asarray(arg).ravel() of every argument",
 ]
 FLOORS = {
-    "quick": {'eval:optimality': 1240, 'eval:prediction_agreement': 1830, 'eval:weight_scale_invariance': 90, 'eval:vanishing_weight': 95, 'fit:trend': 450, 'fit:spline': 480, 'fit:vspline': 300, 'informative_undamped_kappa_ge_1e6': 140, 'distinct_nontrivial': 1200},
-    "thorough": {'eval:optimality': 31000, 'eval:prediction_agreement': 45750, 'eval:weight_scale_invariance': 2250, 'eval:vanishing_weight': 2375, 'fit:trend': 11250, 'fit:spline': 12000, 'fit:vspline': 7500, 'informative_undamped_kappa_ge_1e6': 3500, 'distinct_nontrivial': 30000},
+    "quick": {'eval:optimality': 1240, 'eval:prediction_agreement': 1830, 'eval:weight_scale_invariance': 90, 'eval:vanishing_weight': 95, 'fit:trend': 450, 'fit:spline': 480, 'fit:vspline': 300, 'informative_undamped_kappa_ge_1e6': 140, 'distinct_nontrivial': 1200, 'layout:weights:2d_fortran': 50, 'layout:weights:2d_transposed_view': 50, 'layout:weights:2d_strided': 55, 'layout:weights:2d_negative_stride': 55, 'layout:weights:2d_readonly_fortran': 50, 'layout:weights:1d_series': 80, 'layout:data:2d_fortran': 65, 'layout:data:2d_transposed_view': 65, 'layout:data:2d_strided': 75, 'layout:data:1d_series': 95, 'layout:coordinates:2d_fortran': 120, 'layout:coordinates:2d_transposed_view': 110, 'layout:coordinates:1d_series': 160, 'layout:force_coords:2d_fortran': 10, 'layout:weights_laid_out_differently_from_data': 540},
+    "thorough": {'eval:optimality': 31000, 'eval:prediction_agreement': 45750, 'eval:weight_scale_invariance': 2250, 'eval:vanishing_weight': 2375, 'fit:trend': 11250, 'fit:spline': 12000, 'fit:vspline': 7500, 'informative_undamped_kappa_ge_1e6': 3500, 'distinct_nontrivial': 30000, 'layout:weights:2d_fortran': 1250, 'layout:weights:2d_transposed_view': 1250, 'layout:weights:2d_strided': 1375, 'layout:weights:2d_negative_stride': 1375, 'layout:weights:2d_readonly_fortran': 1250, 'layout:weights:1d_series': 2000, 'layout:data:2d_fortran': 1625, 'layout:data:2d_transposed_view': 1625, 'layout:data:2d_strided': 1875, 'layout:data:1d_series': 2375, 'layout:coordinates:2d_fortran': 3000, 'layout:coordinates:2d_transposed_view': 2750, 'layout:coordinates:1d_series': 4000, 'layout:force_coords:2d_fortran': 250, 'layout:weights_laid_out_differently_from_data': 13500},
 }
 JOBS = {"quick": 1, "thorough": 16}
 CASE_TIMEOUT_S = 300
@@ -316,15 +321,41 @@ def _size(rng, lo, hi, big_share=0.3, big_lo=100):
     return n
 
 
-def _shape(rng, arrays):
-    size = arrays[0].size
-    if rng.random() < 0.5 or size < 4:
-        return tuple(a.copy() for a in arrays)
-    divisors = [r for r in range(2, size) if size % r == 0 and r != size // r]
-    if not divisors:
-        return tuple(a.copy() for a in arrays)
-    rows = int(rng.choice(divisors))
-    return tuple(a.reshape(rows, size // rows).copy() for a in arrays)
+def _present_fit(run, rng, kind, east, north, data, weights, shape=None):
+    """
+    The arguments of one fit in independently chosen memory layouts / containers over one logical shape.
+    Returns ((easting, northing), data, weights, description). The logical element sequences (C order) are unchanged.
+    """
+    n = east.size
+    if shape is None:
+        shape = lay.logical_shape(rng, n)
+    desc = {"logical_shape": list(shape)}
+
+    def one(arg, flat):
+        name, out = lay.present(rng, flat, shape)
+        cls = lay.layout_class(name, shape)
+        run.count("layout:%s:%s" % (arg, cls))
+        desc.setdefault(arg, []).append(cls)
+        return out
+
+    coords = (one("coordinates", east), one("coordinates", north))
+    if isinstance(data, tuple):
+        shaped = tuple(one("data", d) for d in data)
+    else:
+        shaped = one("data", data)
+    if weights is None:
+        shaped_w = None
+    elif isinstance(weights, tuple):
+        shaped_w = tuple(one("weights", w) for w in weights)
+    else:
+        shaped_w = one("weights", weights)
+    classes = set(desc["coordinates"] + desc["data"] + desc.get("weights", []))
+    if len(classes) > 1:
+        run.count("layout:arguments_in_different_layouts")
+    if weights is not None and set(desc["weights"]) - set(desc["data"]):
+        run.count("layout:weights_laid_out_differently_from_data")
+    run.count("layout:logical_%dd" % len(shape))
+    return coords, shaped, shaped_w, desc
 
 
 def _weights(rng, n):
@@ -362,7 +393,7 @@ def _mean_spacing(east, north):
     return float(np.hypot(np.ptp(east), np.ptp(north)) / np.sqrt(max(east.size, 1))) or 1.0
 
 
-def _make(rng, verde, kind, east, north, damping="random", forces="random", over=None):
+def _make(rng, verde, kind, east, north, damping="random", forces="random", over=None, run=None):
     """A configured estimator of the kind plus a description."""
     n = east.size
     cfg = {}
@@ -379,6 +410,14 @@ def _make(rng, verde, kind, east, north, damping="random", forces="random", over
         else:
             force, where = forces, "given"
         cfg.update(damping=damp, forces=where, n_forces=n if force is None else int(force[0].size))
+        if force is not None and run is not None:  # force locations in independent layouts as well (n_1d_arrays flattens them in C order)
+            fshape = lay.logical_shape(rng, force[0].size, p_2d=0.5)
+            shaped = []
+            for comp in force:
+                name, out = lay.present(rng, comp, fshape, allow=("c", "fortran", "transposed_view", "strided", "negative_stride", "readonly"))
+                run.count("layout:force_coords:" + lay.layout_class(name, fshape))
+                shaped.append(out)
+            force = tuple(shaped)
         if kind == "spline":
             mindist = None
             if rng.random() < 0.3:
@@ -439,17 +478,12 @@ def run_case(run, tap, stream, index, rng):
         n = _size(rng, 3, hi, big_lo=100 if kind != "vspline" else 50)
         east, north = gen.cloud(rng, n)
         data = _data(rng, kind, east, north)
-        est, cfg = _make(rng, verde, kind, east, north)
+        est, cfg = _make(rng, verde, kind, east, north, run=run)
         weights = None
-        if rng.random() < 0.6:
-            weights = (_weights(rng, n), _weights(rng, n) * gen.log_uniform(rng, 1e-2, 1e2)) if kind == "vspline" else _weights(rng, n)
-        if kind == "vspline":
-            e, nn, de, dn = _shape(rng, (east, north) + data)
-            shaped_data = (de, dn)
-            shaped_w = None if weights is None else tuple(w.reshape(e.shape) for w in weights)
-        else:
-            e, nn, shaped_data = _shape(rng, (east, north, data))
-            shaped_w = None if weights is None else (weights.reshape(e.shape) if rng.random() < 0.5 else weights.copy())
+        if rng.random() < 0.7:
+            weights = (_weights(rng, n), _weights(rng, n) * gen.log_uniform(rng, 1e-1, 1e1)) if kind == "vspline" else _weights(rng, n)
+        (e, nn), shaped_data, shaped_w, layouts = _present_fit(run, rng, kind, east, north, data, weights)
+        cfg = dict(cfg, layouts=layouts)
         _fit(est, (e, nn), shaped_data, shaped_w)
         _predict(est, (e, nn))
         qe, qn = _queries(rng, east, north)
@@ -484,8 +518,12 @@ def run_case(run, tap, stream, index, rng):
         else:
             w1 = _weights(rng, n)
             w2 = factor * w1
-        _fit(est1, (east, north), data, w1)
-        _fit(est2, (east, north), data, w2)
+        shape = lay.logical_shape(rng, n)
+        c1, d1, sw1, layouts = _present_fit(run, rng, kind, east, north, data, w1, shape)
+        c2, d2, sw2, _ = _present_fit(run, rng, kind, east, north, data, w2, shape)
+        cfg = dict(cfg, layouts=layouts)
+        _fit(est1, c1, d1, sw1)
+        _fit(est2, c2, d2, sw2)
         qe, qn = _queries(rng, east, north)
         coords = (np.concatenate([east, qe]), np.concatenate([north, qn]))
         p1, p2 = _predict(est1, coords), _predict(est2, coords)
